@@ -114,6 +114,32 @@ var ruleAnnA4 = &Rule{
 		disp := map[int64]bool{}
 		if fd != nil {
 			ast.Inspect(fd.Body, func(n ast.Node) bool {
+				// the table form: parser := stateParserMap[kind] with a package-level map literal keyed by token kinds
+				if ix, isIx := n.(*ast.IndexExpr); isIx {
+					if id, isId := ix.X.(*ast.Ident); isId {
+						if obj, isVar := pp.TypesInfo.Uses[id].(*types.Var); isVar && obj.Parent() == pp.Types.Scope() {
+							for _, sf := range pp.Syntax {
+								ast.Inspect(sf, func(m ast.Node) bool {
+									vs, ok := m.(*ast.ValueSpec)
+									if !ok || len(vs.Names) != 1 || pp.TypesInfo.Defs[vs.Names[0]] != obj || len(vs.Values) != 1 {
+										return true
+									}
+									if cl, ok := vs.Values[0].(*ast.CompositeLit); ok {
+										for _, el := range cl.Elts {
+											if kv, ok := el.(*ast.KeyValueExpr); ok {
+												if tv, ok := pp.TypesInfo.Types[kv.Key]; ok && tv.Value != nil {
+													v, _ := constant.Int64Val(tv.Value)
+													disp[v] = true
+												}
+											}
+										}
+									}
+									return false
+								})
+							}
+						}
+					}
+				}
 				cc, ok := n.(*ast.CaseClause)
 				if !ok {
 					return true
